@@ -169,7 +169,7 @@ CORE = {
     'C03': (['C03_ParentDone', 'C03_ProcMirrorsRoot', 'C03_Events', 'C03_TerminalEvent', 'C03_CleanEnding'], []),
     'C04': (['C04_Outcome', 'C04_Order', 'C01_QuiescentOK'], []),
     'C05': (['C05_Admission', 'C05_TerminalRejected', 'C05_AtMostOnce', 'C05_NoDupSuccessor'], ['C05_RejectedIsNoop', 'C05_LiveProcess']),
-    'C06': (['C06_Propagates', 'C06_CatchMatches', 'C06_CatchStepsOnce', 'C06_CaughtCompletes'], []),
+    'C06': (['C06_Propagates', 'C06_CatchMatches', 'C06_Taken', 'C06_CatchStepsOnce', 'C06_CaughtCompletes'], []),
     'C08': (['C08_AtMostOne', 'C08_CreatedFirst', 'C08_TerminalReported', 'C08_BranchSilent', 'C08_MsgAct',
              'C08_ParentFirst'], []),
     'C19': (['C19_Once', 'C19_NeverEarly', 'C19_OnlyOpen', 'C19_Prompt'], ['C19_TickKeepsStates']),
